@@ -50,11 +50,22 @@ def build_doc(rng):
         refs = '<Reference ReferenceType="i=45" IsForward="false">i=29</Reference>'
         if kind != "none":
             refs += '<Reference ReferenceType="i=46">ns=1;i=%d</Reference>' % prop_id
+        extra_prop = None
+        if rng.random() < 0.4:
+            # a further property of the data type that is not its definition (it holds no value)
+            extra_prop = nid
+            nid += 1
+            more = '<Reference ReferenceType="i=46">ns=1;i=%d</Reference>' % extra_prop
+            refs = refs + more if rng.random() < 0.6 else more + refs
         from xml.sax.saxutils import escape, quoteattr
         # the enumeration's name is its BrowseName; the DisplayName is a different text in a third of the cases
         shown = name if rng.random() < 0.65 else "shown as " + name
         out.append('<UADataType NodeId="ns=1;i=%d" BrowseName=%s><DisplayName>%s</DisplayName><References>%s</References></UADataType>'
                    % (dt_id, quoteattr("1:" + name), escape(shown), refs))
+        if extra_prop is not None:
+            # ... or a value that is no definition at all (finding D-C17b, repaired: it used to be read as one)
+            note = rng.choice(["", "", '<Value><String xmlns="%s">hello</String></Value>' % T, '<Value><ListOfInt32 xmlns="%s"><Int32>7</Int32></ListOfInt32></Value>' % T])
+            out.append('<UAVariable NodeId="ns=1;i=%d" BrowseName="1:Note%d" DataType="i=12"><DisplayName>Note</DisplayName><References><Reference ReferenceType="i=40">i=68</Reference></References>%s</UAVariable>' % (extra_prop, extra_prop, note))
         if kind == "strings":
             items = "".join('<LocalizedText><Locale>en</Locale><Text>%s</Text></LocalizedText>' % escape(t) for t in texts)
             out.append('<UAVariable NodeId="ns=1;i=%d" BrowseName="EnumStrings" DataType="i=21" ValueRank="1"><DisplayName>EnumStrings</DisplayName>'
